@@ -80,6 +80,23 @@ def cases(tier, rng, schema, feats):
                 ga = b"\x02" + cbor.enc(cbor.M([(1, "example.com"), (2, b"\x22" * 32), (9, prefs)]))
                 out.append(f"C14.fmt.{n}\tdec2\t{ga.hex()}")
                 n += 1
+    # entries carrying an extra (unknown) member before, between and after `alg` / `type`, at every position of the list and
+    # followed by further entries and members: the filter must read each entry to its end
+    def entry_x(alg, typ, pos):
+        pr = [("alg", alg), ("type", typ)]
+        pr.insert(pos, ("hints", []) if pos != 1 else ("x", cbor.M([("y", 1)])))
+        return cbor.M(pr)
+    for pos in (0, 1, 2):
+        for alg, typ in ((-7, "public-key"), (-257, "public-key"), (-8, "other")):
+            ex = entry_x(alg, typ, pos)
+            for lst in ([ex], [ex, entry(-8, "public-key")], [entry(-7, "public-key"), ex, entry(-8, "public-key")], [ex, ex, entry(-7, "public-key")],
+                        [entry(-7, "public-key"), entry(-8, "public-key"), ex]):
+                out.append(f"C14.extra.{n}\tdec2\t{mc(lst).hex()}")
+                n += 1
+                out.append(f"C14.extra.{n}\tdec2\t{mc(lst, ['packed']).hex()}")
+                n += 1
+                out.append(f"C14.extra.{n}\tdecty\twebauthn::FilteredPublicKeyCredentialParameters\t{cbor.enc(lst).hex()}")
+                n += 1
     # near-spellings of the known formats (padding, terminators, whitespace, byte-order mark, other case, truncation, repetition):
     # each is an UNKNOWN format; alone, before and after the real ones
     near = []
